@@ -56,13 +56,15 @@ def run_one(mod, scn, timeout=None):
     """Run one scenario with watchdog; always returns a result dict."""
     timeout = timeout or getattr(mod, "RUN_TIMEOUT", 120)
     boot.reset_globals()
-    old = signal.signal(signal.SIGALRM, _alarm)
-    signal.setitimer(signal.ITIMER_REAL, timeout)
+    # the watchdog counts CPU time of this process (ITIMER_PROF), not wall time: a combinational loop or a hang spins the CPU,
+    # while a run that is merely slow because the machine is loaded must never be reported as a violation
+    old = signal.signal(signal.SIGPROF, _alarm)
+    signal.setitimer(signal.ITIMER_PROF, timeout)
     try:
         res = mod.run(scn)
     except RunTimeout:
         res = {"violations": [{"prop": mod.PROPERTY, "cls": "no_settle", "observable": scn.get("family", "?"),
-                               "msg": "run exceeded %ds wall (combinational loop or hang)" % timeout,
+                               "msg": "run exceeded %ds of CPU time (combinational loop or hang)" % timeout,
                                "cycle": None}],
                "digest": "timeout", "stats": {}}
     except Exception as e:  # noqa
@@ -77,8 +79,8 @@ def run_one(mod, scn, timeout=None):
         else:
             res = {"violations": [], "digest": "harness-error", "stats": {}, "harness_error": txt}
     finally:
-        signal.setitimer(signal.ITIMER_REAL, 0)
-        signal.signal(signal.SIGALRM, old)
+        signal.setitimer(signal.ITIMER_PROF, 0)
+        signal.signal(signal.SIGPROF, old)
     res.setdefault("violations", [])
     res.setdefault("stats", {})
     return res
